@@ -917,6 +917,18 @@ pub fn witness(prop: &str, f: &[String], _: &mut Ctx) -> Option<String> {
             }
             c15_eval(&d.dom).map(|(sig, _)| format!("{}/serial/{}", prop, sig))
         }
+        // fields: kind, document whose root element carries other attributes with the same local part, attribute name, value:
+        // set_attribute(name) must leave attributes with other (qualified) names alone
+        "set-attribute-keeps-others" => {
+            let root = (0..pool.h.len()).find(|&i| pool.h[i].kind == K::Element)?;
+            let before = d.dom.to_string();
+            let (name, value) = (f.get(2)?.clone(), f.get(3)?.clone());
+            match pool.apply(&Op::SetAttribute { e: root, name: name.clone(), value }) { Outcome::Ok(_) => {} _ => return None }
+            let after = d.dom.to_string();
+            // every attribute written with a prefix (or as a declaration) in the original must still be there
+            let lost: Vec<&str> = before.split_whitespace().filter(|w| w.contains(":") && w.contains('=')).map(|w| w.split('=').next().unwrap_or("")).filter(|q| !q.is_empty() && *q != name && !after.contains(&format!(" {}=", q))).collect();
+            if lost.is_empty() { None } else { Some(format!("{}/dom/set_attribute/ok/effect/other-attribute-removed", prop)) }
+        }
         // fields: kind, document with a DOCTYPE that declares an entity the content refers to
         "remove-doctype" => {
             let dt = (0..pool.h.len()).find(|&i| pool.h[i].kind == K::Doctype)?;
